@@ -109,6 +109,7 @@ func c07Specs(c *run.Ctx) []built {
 		spec.Spec{Name: "c07-style-attr-vs-style-rules", Base: "new", Calls: []C{els("p", "span", "b"), attrsOn([]string{"style", "title"}, "", "p", "b"),
 			{Op: "AllowStyles", Names: []string{"color"}, Scope: "on", On: []string{"span"}},
 			{Op: "AllowStyles", Names: []string{"width"}, Enum: []string{"1px"}, Scope: "matching", OnRe: reMy}, {Op: "AllowElementsMatching", Re: reMy}}},
+		spec.Spec{Name: "c07-unsafe-script-style", Base: "new", Calls: []C{opt("AllowUnsafe", true), els("script", "style", "p"), attrsOn([]string{"type"}, "", "script", "style")}},
 		spec.Spec{Name: "c07-styles-overlap", Base: "new", Calls: []C{els("p", "span"),
 			{Op: "AllowStyles", Names: []string{"color"}, Handler: "is-red", Scope: "global"},
 			{Op: "AllowStyles", Names: []string{"color"}, Enum: []string{"blue"}, Scope: "on", On: []string{"p"}},
@@ -280,6 +281,8 @@ func runC07(c *run.Ctx) {
 					case "plaintext":
 					case "textarea", "title":
 						check(st + "t &amp; u</" + el + ">") // RCDATA: character references are decoded and re-escaped
+					case "script", "style":
+						check(st + "a > b && c</" + el + ">") // written back as it is under AllowUnsafe
 					default:
 						check(st + "t u</" + el + ">") // raw text: content is re-escaped verbatim, so keep it free of & and <
 					}
